@@ -18,7 +18,7 @@ T = {
  "C04": ("reference model arccot(k + tan|lat-dec|) with oracle declination + metamorphic Shafi/Hanafi pair; proptest with zenith-passage latitudes constructed from the oracle",
          "Each case is evaluated under both schools: altitude at Asr vs the shadow rule within 0.03 deg, Dhuhr < Asr < Maghrib, Hanafi strictly later; latitudes equal to the date's declination +-0.2 deg are constructed.",
          "hour angle taken from the reported Dhuhr; truncated seconds", "6 C04"),
- "C05": ("validity predicate over the 7-entry result (completeness, circular order relative to Dhuhr, 12 h bound, no flag without policy); proptest incl. boundary-directed longitudes (an entry bisected onto the midnight crossing)",
+ "C05": ("validity predicate over the 7-entry result (completeness, circular order relative to Dhuhr, 12 h bound, no flag without policy); proptest incl. boundary-directed longitudes (an entry bisected onto the midnight crossing) and latitudes (bisected onto where Fajr/Isha/Imsaak stop existing, evaluated on both sides)",
          "Generated configurations (8 methods, custom angles, 4 rounding modes, policy None/default) are checked for exactly 7 entries and the chronological order of the conventional entries measured before/after Dhuhr.",
          "order measured on the 24 h circle relative to Dhuhr; 60 s slack on the 12 h bound under rounding", "6 C05"),
  "C06": ("reference model of event existence (altitude range of the day from the oracle declination) compared with the Ok/Invalid pattern; proptest with boundary latitudes constructed from the oracle",
@@ -27,9 +27,9 @@ T = {
  "C07": ("crash/hang freedom over the full parameter product under catch_unwind + watchdog; proptest incl. boundary-directed minute offsets (a prayer bisected onto the midnight wrap, +-8 ulps, 4 rounding modes) and libFuzzer target c07_nopanic (thorough)",
          "The full product of sites (incl. poles), 9 methods x 15 policies x 4 roundings, angles [0,25], intervals [0,180], offsets [-1500,1500], weather and dates is sampled; any panic, missing entry or (confirmed) hang is a violation.",
          "hang = > 30 s and reproduced in a fresh process; release build without overflow checks", "6 C07"),
- "C08": ("metamorphic: same call with and without the policy (conventional reference), per-entry equality/flag predicates; proptest",
+ "C08": ("metamorphic: same call with and without the policy (conventional reference), per-entry equality/flag predicates; proptest incl. boundary-directed latitudes (polar-day limit) and a polar-night-edge class with interval-defined Fajr/Isha",
          "Each generated (site, method, policy) is compared with the conventional result: Fajr/Isha-only policies leave the other four untouched, 'invalid' policies are the identity on valid Fajr/Isha and on all-valid days, unflagged entries equal conventional ones.",
-         "interval-consuming policies use a reference with zeroed intervals; interval-defined times whose angle event does not exist are exempt (oracle predicate)", "6 C08"),
+         "interval-consuming policies use a reference with zeroed intervals; 'conventionally valid' is taken literally (Ok in the no-policy result), also for interval-defined times on the polar-night edge (a dedicated class)", "6 C08"),
  "C09": ("reference model (independent outward day search through the public API with no policy); proptest incl. boundary-directed latitudes (closest good day at the edge of existence) + fixed-site whole-year sweeps",
          "The fallback value must equal, to the second, the conventional Fajr/Isha of the closest good date found by an independent search (earlier date on ties); generated cases are weighted to local summer and the first/last days of the year in both hemispheres; whole years are swept at fixed sites.",
          "a date is good when the no-policy API reports both Fajr and Isha", "6 C09"),
@@ -37,10 +37,10 @@ T = {
          "For the 10 policies of the statement the replaced Fajr/Isha (all six for nearest-latitude all-prayers) are compared with the stated formulas within 3 s and must be flagged extreme; interval-defined times must keep their definition.",
          "cases whose Shurooq < Dhuhr < Maghrib are not in clock order are skipped (counted)", "6 C10"),
  "C11": ("reference model (integer rounding function): exhaustive enumeration of mode x prayer key x second of day through the hour_to_time hook + generated end-to-end comparison of each mode with RoundSeconds::None; proptest",
-         "Engine 1 enumerates all 4 x 6 x 86,400 (mode, prayer key, second) points (exhaustive over that space; sub-second fraction, +-24 h wrap and offset vary per point); engine 2 compares the 7 entries under each mode with the None-mode output end to end, including validity and flags.",
+         "Engine 1 enumerates all 4 x 6 x 86,400 (mode, prayer key, second) points (exhaustive over that space; sub-second fraction, +-24 h wrap and offset vary per point); engine 2 compares the 7 entries under each mode with the None-mode output end to end, including validity and flags; a second-boundary sweep (every minute x {+0,+1,+2,+29,+30,+31,+59 s} x -4..4 ulps x mode) holds the conversion to its rule on hour values next to every whole second.",
          "hook called only with the 6 keys the public API uses; Imsaak covered end to end", "6 C11"),
  "C12": ("metamorphic: pairs of calls differing in one parameter, exact-shift and no-crosstalk predicates; proptest",
-         "One perturbation per case (offset on one key, Fajr/Isha/Imsaak interval, school, angle +-1, weather): the named time moves exactly as documented (+-1 s truncation) and every other entry is identical including flag and validity.",
+         "One perturbation per case (offset on one key, Fajr/Isha/Imsaak interval, school, angle +-1, weather), on top of optional base intervals and, in a third of the cases, an explicit base weather: the named time moves exactly as documented (+-1 s truncation) and every other entry is identical including flag and validity.",
          "offset on the Imsaak key: only 'nothing else moves' is asserted", "6 C12"),
  "C13": ("invariant over histories of consecutive dates (first/second differences on the circle); proptest histories + enumerated sweeps of consecutive triples",
          "Generated 3-30 day histories anchored at the RA wrap, year ends and leap days, plus a sweep (quick: every triple centred on Mar 16-25 of every year; thorough: every triple of 1600-2399 at 24 sites = 7.0 M days) are held to the stated second-difference bounds and the 240 s first-difference bound.",
@@ -52,7 +52,7 @@ T = {
          "Each generated (workers 1..64, days 0..6000, threshold, delay plan) runs the parallel API with perturbed scheduling and compares the whole map with the sequential result; the hook confirms the parallel branch was really taken. Interleavings are perturbed, not enumerated: absence for every interleaving is not established.",
          "OS scheduler not owned; the saved case with its delay plan is the reproducible unit; hang = > 60 s and reproduced", "6 C15"),
  "C16": ("differential vs independent vector bearing; proptest",
-         "2 M (quick) / 40 M (thorough) generated locations incl. the Kaaba meridian/antimeridian, date line, poles' neighbourhood are compared with a vector computation within 1e-6 deg, plus range, rotation label, printed text and elevation independence.",
+         "2 M (quick) / 100 M (thorough) generated locations incl. the Kaaba meridian/antimeridian, date line, poles' neighbourhood are compared with a vector computation within 1e-6 deg, plus range, rotation label, printed text and elevation independence.",
          "-180.0 accepted at due-south bearings (same direction as 180 within the 1e-6 tolerance)", "6 C16"),
  "C17": ("differential vs integer tabular-calendar model; exhaustive enumeration of all 3,652,059 dates",
          "Every date 0001-01-01..9999-12-31 is converted and compared field by field (year, month, day, era, weekday, printed text) with an integer model, under catch_unwind; exhaustive over the property's whole input space on every run.",
